@@ -13,6 +13,7 @@ package cluster
 
 import (
 	"context"
+	"encoding/binary"
 	"fmt"
 	"io"
 	"net"
@@ -27,6 +28,7 @@ import (
 	"github.com/rqlite/rqlite/v10/auth"
 	"github.com/rqlite/rqlite/v10/cluster/proto"
 	command "github.com/rqlite/rqlite/v10/command/proto"
+	pb "google.golang.org/protobuf/proto"
 )
 
 type c20Net struct {
@@ -179,6 +181,8 @@ func TestVerifC20Client(t *testing.T) {
 	for si, sq := range seqs {
 		nw := &c20Net{}
 		cl := NewClient(&c20Dialer{inner: tn, n: nw}, 5*time.Second)
+		seqStart := len(ops)
+		inconclusive := false
 		ops = append(ops, "reset")
 		impl = append(impl, "ok")
 		var desc []string
@@ -245,6 +249,12 @@ func TestVerifC20Client(t *testing.T) {
 			if op.kind == "hwm" {
 				mk = "hwm"
 			}
+			if !op.slow && obs == "timeout" {
+				// the machine is so loaded that a request the leader answers at once took longer than the
+				// timeout: nothing can be concluded from this sequence (it is not a property failure)
+				inconclusive = true
+				break
+			}
 			ops = append(ops, fmt.Sprintf("%s %d %s %d", mk, op.tag, map[bool]string{true: "1", false: "0"}[op.slow], op.retries))
 			impl = append(impl, obs)
 			rep.Count("kind:" + op.kind)
@@ -286,12 +296,24 @@ func TestVerifC20Client(t *testing.T) {
 				time.Sleep(60 * time.Millisecond)
 			}
 		}
+		if inconclusive {
+			ops, impl = ops[:seqStart], impl[:seqStart]
+			rep.Count("sequences-inconclusive-under-load")
+			time.Sleep(time.Until(time.Unix(0, nw.delayUntil.Load())) + 50*time.Millisecond)
+			continue
+		}
 		// the leader-side execution log of the whole sequence (broadcasts do not reach the database)
 		time.Sleep(20 * time.Millisecond)
 		exMu.Lock()
 		var ex []string
+		mine := map[int64]bool{}
+		for _, op := range sq {
+			mine[op.tag] = true
+		}
 		for _, e := range executed {
-			ex = append(ex, fmt.Sprint(e))
+			if mine[e] { // under heavy load an execution of the previous sequence can land here late
+				ex = append(ex, fmt.Sprint(e))
+			}
 		}
 		exMu.Unlock()
 		ops = append(ops, "executed")
@@ -309,6 +331,58 @@ func TestVerifC20Client(t *testing.T) {
 		<-hwmC
 	}
 	rep.vfCompare("clientpool", ops, impl, nil)
+
+	// ---- a connection that breaks AFTER the leader executed the command and before its answer:
+	// not a deadline error, so Client.retry still makes its forced-new attempt even with retries = 0
+	// and the command is executed a second time (C20.executed_once_reset_witness).
+	{
+		ln, err := net.Listen("tcp", "127.0.0.1:0")
+		if err != nil {
+			t.Fatalf("listen: %v", err)
+		}
+		defer ln.Close()
+		var rmu sync.Mutex
+		received := 0
+		go func() {
+			for {
+				conn, err := ln.Accept()
+				if err != nil {
+					return
+				}
+				go func(conn net.Conn) {
+					defer conn.Close()
+					hdr := make([]byte, 8)
+					if _, err := io.ReadFull(conn, hdr); err != nil {
+						return
+					}
+					body := make([]byte, binary.LittleEndian.Uint64(hdr))
+					if _, err := io.ReadFull(conn, body); err != nil {
+						return
+					}
+					rmu.Lock()
+					received++ // the leader has the whole command: it executes it
+					n := received
+					rmu.Unlock()
+					if n == 1 {
+						return // ... and the connection breaks before the answer
+					}
+					p, _ := pb.Marshal(&proto.CommandExecuteResponse{})
+					writeBytesWithLength(conn, p)
+				}(conn)
+			}
+		}()
+		cl := NewClient(&c20Dialer{inner: tn, n: &c20Net{}}, 5*time.Second)
+		_, _, err = cl.Execute(context.Background(), &command.ExecuteRequest{Request: req(next())}, ln.Addr().String(), nil, 2*time.Second, 0)
+		rmu.Lock()
+		n := received
+		rmu.Unlock()
+		rep.Case("execute, retries=0, connection breaks after the leader received the command", true)
+		if n > 1 {
+			rep.Fail("client:execute:executed-again-after-a-broken-connection-without-retries-requested",
+				fmt.Sprintf("execute with retries=0: the first connection broke after the leader had received the command; the client sent it again on a new connection (error returned to the caller: %v): the leader received and executes it %d times", err, n),
+				map[string]interface{}{"commands_received_by_leader": n, "client_error": fmt.Sprint(err)})
+		}
+	}
 
 	// ---- the caller's credentials decide on the leader, for every request on a pooled connection:
 	// a leader with a credential store; through ONE client (so through the same pooled connection)
